@@ -432,7 +432,8 @@ def project_scenario(arg):
     bpath = os.path.join(d, 'buf.py')    # not written
     s = jedi.Script(text, path=bpath, project=jedi.Project(d), environment=jutil.env())
     counts, blocked = {}, {}
-    evs, metas, full = names_event(s, ref, counts, blocked, None)
+    # (BUFFER itself parses; error nodes can only come from the re-encoding: DEV-FormFeedIndent)
+    evs, metas, full = names_event(s, ref, counts, blocked, text if L.has_error_nodes(s._module_node) else None)
     header, qev, qmeta, c2, b2 = query_all(s, text, bpath, [d], ids, L.ident_tokens(text)[1], rng, None)
     if full is not None:
         files = {'_roots': [d], '_order': [bpath], '_maxlen': 0, bpath: (1, text)}
